@@ -575,6 +575,15 @@ func execute(s *engine.Script, o *engine.Outcome) {
 		}
 	}
 	o.ProbeN("snapshot_bytes", int64(len(before)))
+	if nsw > 0 {
+		o.Tag("interleaving (hash of the executed (yield ordinal, from, to, site) switch sequence)", fmt.Sprintf("%016x", swHash))
+	}
+	o.Tag("shared value type", sharedPtr.Type().Elem().Name())
+	for _, calls := range tasks {
+		for _, tc := range calls {
+			o.Tag("call", tc.c.name)
+		}
+	}
 	o.FP.Step("sched", yields, nsw, swHash)
 	_ = inSerial
 }
